@@ -161,7 +161,11 @@ Definition multi : list ty :=
    (* several fields of ONE named struct type with the same pointer-ness (code emitted for one must not serve the other), and a
       nested struct made of scalars and pointers to scalars only, as field, pointer, element and map value *)
    TStruct [("From", plain); ("To", plain); ("Src", TPtr leaf); ("Dst", TPtr leaf); ("PS", pscal); ("PP", TPtr pscal);
-            ("PL", TSlice pscal); ("PM", TMap t_string (TPtr pscal))]].
+            ("PL", TSlice pscal); ("PM", TMap t_string (TPtr pscal))];
+   (* slices spelled []uint8 (the same Go type as []byte, another type NAME: elements are addressable, it is no bytes leaf),
+      and a named struct with its own inspector reached BELOW collection elements (path positions >= 1) *)
+   TStruct [("Levels", TSlice (TScalar (SInt KUint8))); ("PLv", TPtr (TSlice (TScalar (SInt KUint8)))); ("B", t_bytes);
+            ("Mids", TSlice mid); ("MM", TMap t_string (TPtr mid)); ("N", t_int32)]].
 
 Definition rep_shapes : list ty :=
   dedup_ty (shapes1 rep_skinds ++ shapes2 [SString; SInt KInt32] [SInt KInt32; SString]).
